@@ -573,4 +573,302 @@ theorem select_growth (s : Selecting) (sh : Shared D L) (n : Nat) :
         · trivial
         · trivial
 
+
+theorem selstep_panic (sh0 : Shared D L) (p : String) : SelStep sh0 (.panic p) := by
+  intro x h; cases h
+
+theorem selstep_fuel (sh0 : Shared D L) : SelStep sh0 .outOfFuel := by
+  intro x h; cases h
+
+theorem selstep_selDownSpace (s : Selecting) (sh : Shared D L) : SelStep sh (selDownSpace env s sh) := by
+  unfold selDownSpace
+  repeat' split
+  all_goals first
+    | exact selstep_panic _ _
+    | exact selstep_fuel _
+    | selstep_leaf
+
+theorem retarget_keep (s : Selecting) (sh : Shared D L) :
+    OutAll (fun x => x.1 = sh ∧ ∃ s', x.2 = .toState (.selecting s')) (retarget env s sh) := by
+  unfold retarget
+  repeat' split
+  all_goals first | exact ⟨rfl, _, rfl⟩ | trivial
+
+theorem selstep_closeIfEmpty (sh0 : Shared D L) (r : SelRes D L) (hk : Keep sh0 r.shared)
+    (hl : r.shared.com.len = sh0.com.len) (ht : r.trans = .spin .absorb) : SelStep sh0 (closeIfEmpty env r) := by
+  intro x h
+  rcases closeIfEmpty_cases env h with rfl | rfl
+  · exact ⟨hk, by omega, .inr ⟨by omega, by rw [ht]; trivial⟩⟩
+  · refine ⟨hk, ?_, .inl rfl⟩
+    show r.shared.com.popCursor.len ≤ _
+    rw [popCursor_len]; omega
+
+theorem selstep_selMove (s : Selecting) (sh : Shared D L) (isJ : Bool) : SelStep sh (selMove env s sh isJ) := by
+  unfold selMove
+  split
+  · selstep_leaf
+  · dsimp only
+    have hl : (if isJ = true then sh.com.moveCursor ((match s.sel with
+        | .phrase p => p.begin_
+        | _ => sh.com.cursor) - 1)
+        else (sh.com.moveCursor ((match s.sel with
+        | .phrase p => p.begin_
+        | _ => sh.com.cursor) + 1)).clampCursor).len = sh.com.len := by
+      split
+      · rfl
+      · rw [clampCursor_len]; rfl
+    split
+    · rename_i sh' s' hq
+      obtain ⟨h1, _⟩ := (retarget_keep env s _).elim hq
+      dsimp only at h1
+      refine selstep_closeIfEmpty env _ _ ?_ ?_ rfl
+      · show Keep sh sh'; rw [h1]; exact ⟨rfl, rfl, rfl, rfl⟩
+      · show sh'.com.len = _; rw [h1]; exact hl
+    · rename_i sh' t _ hq
+      obtain ⟨h1, _⟩ := (retarget_keep env s _).elim hq
+      dsimp only at h1
+      refine selstep_closeIfEmpty env _ _ ?_ ?_ rfl
+      · show Keep sh sh'; rw [h1]; exact ⟨rfl, rfl, rfl, rfl⟩
+      · show sh'.com.len = _; rw [h1]; exact hl
+    · exact selstep_panic _ _
+    · exact selstep_fuel _
+
+theorem selstep_selPrevPage (s : Selecting) (sh : Shared D L) : SelStep sh (selPrevPage env s sh) := by
+  unfold selPrevPage
+  repeat' split
+  all_goals first
+    | exact selstep_panic _ _
+    | exact selstep_fuel _
+    | selstep_leaf
+
+theorem selstep_selNextPage (s : Selecting) (sh : Shared D L) : SelStep sh (selNextPage env s sh) := by
+  unfold selNextPage
+  repeat' split
+  all_goals first
+    | exact selstep_panic _ _
+    | exact selstep_fuel _
+    | selstep_leaf
+
+theorem selstep_selDigit (s : Selecting) (sh : Shared D L) (c : Nat) : SelStep sh (selDigit env s sh c) := by
+  unfold selDigit
+  split
+  · rename_i s' sh' t hq
+    have h := (select_growth env s sh (c - 1)).elim hq
+    intro x hx; injection hx with hx; subst hx
+    exact h
+  · exact selstep_panic _ _
+  · exact selstep_fuel _
+
+/-- **`Selecting::next`** -/
+theorem selstep_selectingNext (s : Selecting) (sh : Shared D L) (ev : KeyEvent) :
+    SelStep sh (selectingNext env s sh ev) := by
+  unfold selectingNext
+  repeat' (with_reducible apply selstep_ite)
+  all_goals first
+    | exact selstep_selDownSpace env _ _
+    | exact selstep_selMove env _ _ _
+    | exact selstep_selPrevPage env _ _
+    | exact selstep_selNextPage env _ _
+    | exact selstep_selDigit env _ _ _
+    | selstep_leaf
+
+/-! ## `Highlighting` -/
+
+theorem highlighting_growth (m : Nat) (sh : Shared D L) (ev : KeyEvent) :
+    OutAll (fun x => Keep sh x.1 ∧ x.1.com.len = sh.com.len ∧
+      (x.2.2 = .toState .entering ∨ ∃ b, x.2.2 = .spin b)) (highlightingNext env m sh ev) := by
+  unfold highlightingNext
+  dsimp only
+  split
+  · exact ⟨⟨rfl, rfl, rfl, rfl⟩, rfl, .inl rfl⟩
+  · split
+    · exact ⟨Keep.refl _, rfl, .inr ⟨_, rfl⟩⟩
+    · split
+      · exact ⟨Keep.refl _, rfl, .inr ⟨_, rfl⟩⟩
+      · split
+        · split
+          · rename_i sh' b hq
+            obtain ⟨hk, hc⟩ := (learnInRangeNotify_keep env _ _ _).elim hq
+            exact ⟨⟨hk.1, hk.2.1, hk.2.2.1, hk.2.2.2⟩, by rw [hc]; rfl, .inl rfl⟩
+          · trivial
+          · trivial
+        · exact ⟨Keep.refl _, rfl, .inl rfl⟩
+
+/-! ## the invariant -/
+
+/-- what is configured: thresholds within `B`, easy-symbol expansions within `K`, exact lookup -/
+structure Cfg (B K : Nat) (sh : Shared D L) : Prop where
+  thr : sh.options.autoCommitThreshold ≤ B
+  std : sh.options.lookupStrategy = .standard
+  abbr : AbbrLe K sh.abbr
+
+theorem Cfg.keep {B K : Nat} {a b : Shared D L} (h : Cfg B K a) (hk : Keep a b) : Cfg B K b :=
+  ⟨by rw [hk.2.1]; exact h.thr, by rw [hk.2.2.1]; exact h.std, by rw [hk.1]; exact h.abbr⟩
+
+/-- the bound of a state: `B`, one more while a candidate list is open -/
+def lenCap (B : Nat) : St → Nat
+  | .selecting _ => B + 1
+  | _ => B
+
+theorem le_lenCap (B : Nat) (st : St) : B ≤ lenCap B st := by
+  cases st <;> simp [lenCap]
+
+theorem lenCap_le (B : Nat) (st : St) : lenCap B st ≤ B + 1 := by
+  cases st <;> simp [lenCap]
+
+/-- **the invariant**: configuration within `B` / `K`, and the buffer within the bound of the state -/
+structure Within (B K : Nat) (e : Editor D L) : Prop where
+  cfg : Cfg B K e.shared
+  len : e.shared.com.len ≤ lenCap B e.state
+
+/-- the auto-commit at `sh` leaves at most `threshold` symbols (C05 `tryAutoCommit_bound_at`: true when the
+    conversion answer tiles the buffer) -/
+def ACBound (sh : Shared D L) : Prop :=
+  ∀ sh2, Shared.tryAutoCommit env sh = .ok sh2 → sh2.com.len ≤ sh.options.autoCommitThreshold
+
+/-- the shared state INSIDE an operation at which the auto-commit (hence the conversion) may run: after the
+    state machine's part of a key, after the `Selecting::select` of the `select` call -/
+def Mid (e : Editor D L) : Op L → Shared D L → Prop
+  | .key ev, sh => ∃ st, dispatch env e ev = .ok (sh, st)
+  | .select n, sh => ∃ s s' sh0 t, e.state = .selecting s ∧ Selecting.select env s e.shared n = .ok (s', sh0, t) ∧
+      sh = (applyTrans sh0 (.selecting s') t).1
+  | _, _ => False
+
+theorem applyTrans_keep (sh : Shared D L) (st : St) (t : Trans) :
+    Keep sh (applyTrans sh st t).1 ∧ (applyTrans sh st t).1.com = sh.com := by
+  cases t <;> exact ⟨⟨rfl, rfl, rfl, rfl⟩, rfl⟩
+
+theorem preamble_keep (sh : Shared D L) : Keep sh (preamble sh) ∧ (preamble sh).com = sh.com :=
+  ⟨⟨rfl, rfl, rfl, rfl⟩, rfl⟩
+
+/-- **the state machine's part of a key, all four states**: the configuration is kept, at most `max 1 K`
+    symbols are added, and either the auto-commit follows (`Entering`, *absorb*) or the buffer is within the bound of
+    the new state -/
+theorem dispatch_growth {B K : Nat} (hn : NoFuzzy env) {e : Editor D L} (hw : Within B K e) {ev : KeyEvent}
+    {sh : Shared D L} {st : St} (hd : dispatch env e ev = .ok (sh, st)) :
+    Keep e.shared sh ∧ sh.com.len ≤ e.shared.com.len + max 1 K ∧
+    ((st = .entering ∧ sh.last = .absorb) ∨ sh.com.len ≤ lenCap B st) := by
+  have hpk := preamble_keep e.shared
+  have hcfg : Cfg B K (preamble e.shared) := hw.cfg.keep hpk.1
+  have hlen := hw.len
+  unfold dispatch at hd
+  split at hd
+  · next hs =>
+    rw [hs] at hlen
+    obtain ⟨⟨sh', t⟩, hr, hx⟩ := map_ok hd
+    dsimp only at hx
+    obtain ⟨h1, h2, h3⟩ := gstep_enteringNext env (K := max 1 K) (Nat.le_max_left _ _) (preamble e.shared)
+      (fun p hp => Nat.le_trans (hcfg.abbr p hp) (Nat.le_max_right _ _)) ev sh' t hr
+    have ha := applyTrans_keep sh' .entering t
+    have e1 : sh = (applyTrans sh' .entering t).1 := by rw [hx]
+    have e2 : st = (applyTrans sh' .entering t).2 := by rw [hx]
+    rw [hpk.2] at h2 h3
+    refine ⟨hpk.1.trans (h1.trans (e1 ▸ ha.1)), by rw [e1, ha.2]; exact h2, ?_⟩
+    rcases h3 with rfl | h3
+    · exact .inl ⟨by rw [e2]; rfl, by rw [e1]; rfl⟩
+    · refine .inr ?_
+      rw [e1, ha.2]
+      exact Nat.le_trans h3 (Nat.le_trans hlen (le_lenCap B st))
+  · next hs =>
+    rw [hs] at hlen
+    obtain ⟨⟨sh', t⟩, hr, hx⟩ := map_ok hd
+    dsimp only at hx
+    obtain ⟨h1, h2, h3⟩ := sstep_enteringSyllableNext env hn (preamble e.shared) hcfg.std ev sh' t hr
+    have ha := applyTrans_keep sh' .enteringSyllable t
+    have e1 : sh = (applyTrans sh' .enteringSyllable t).1 := by rw [hx]
+    have e2 : st = (applyTrans sh' .enteringSyllable t).2 := by rw [hx]
+    rw [hpk.2] at h2 h3
+    refine ⟨hpk.1.trans (h1.trans (e1 ▸ ha.1)), ?_, ?_⟩
+    · rw [e1, ha.2]; exact Nat.le_trans h2 (Nat.add_le_add_left (Nat.le_max_left _ _) _)
+    · rcases h3 with ⟨s, rfl⟩ | rfl | ⟨h3, h4⟩
+      · refine .inr ?_
+        rw [e1, ha.2, e2]
+        show sh'.com.len ≤ B + 1
+        simp only [lenCap] at hlen
+        omega
+      · exact .inl ⟨by rw [e2]; rfl, by rw [e1]; rfl⟩
+      · cases t with
+        | spin b =>
+          refine .inr ?_
+          rw [e1, ha.2, e2]
+          show sh'.com.len ≤ B
+          simp only [lenCap] at hlen
+          omega
+        | toState s =>
+          rcases h4 s with h5 | rfl
+          · exact absurd rfl h5
+          · exact .inl ⟨by rw [e2]; rfl, by rw [e1]; rfl⟩
+  · next s hs =>
+    rw [hs] at hlen
+    obtain ⟨x, hr, hx⟩ := map_ok hd
+    obtain ⟨h1, h2, h3⟩ := selstep_selectingNext env s (preamble e.shared) ev x hr
+    have ha := applyTrans_keep x.shared (.selecting x.sel) x.trans
+    have e1 : sh = (applyTrans x.shared (.selecting x.sel) x.trans).1 := by rw [hx]
+    have e2 : st = (applyTrans x.shared (.selecting x.sel) x.trans).2 := by rw [hx]
+    rw [hpk.2] at h2 h3
+    refine ⟨hpk.1.trans (h1.trans (e1 ▸ ha.1)), ?_, ?_⟩
+    · rw [e1, ha.2]; exact Nat.le_trans h2 (Nat.add_le_add_left (Nat.le_max_left _ _) _)
+    · rcases h3 with h3 | ⟨h3, h4⟩
+      · exact .inl ⟨by rw [e2, h3]; rfl, by rw [e1, h3]; rfl⟩
+      · refine .inr ?_
+        rw [e1, ha.2, e2]
+        simp only [lenCap] at hlen
+        cases ht : x.trans with
+        | spin b => show x.shared.com.len ≤ B + 1; omega
+        | toState s' =>
+          rw [ht] at h4
+          cases s' with
+          | selecting s'' => show x.shared.com.len ≤ B + 1; omega
+          | entering => exact absurd h4 (by simp [StaysSel])
+          | enteringSyllable => exact absurd h4 (by simp [StaysSel])
+          | highlighting m => exact absurd h4 (by simp [StaysSel])
+  · next m hs =>
+    rw [hs] at hlen
+    obtain ⟨⟨sh', m', t⟩, hr, hx⟩ := map_ok hd
+    dsimp only at hx
+    obtain ⟨h1, h2, h3⟩ := (highlighting_growth env m (preamble e.shared) ev).elim hr
+    have ha := applyTrans_keep sh' (.highlighting m') t
+    have e1 : sh = (applyTrans sh' (.highlighting m') t).1 := by rw [hx]
+    have e2 : st = (applyTrans sh' (.highlighting m') t).2 := by rw [hx]
+    rw [hpk.2] at h2
+    dsimp only at h1 h2 h3
+    refine ⟨hpk.1.trans (h1.trans (e1 ▸ ha.1)), ?_, ?_⟩
+    · rw [e1, ha.2, h2]; exact Nat.le_add_right _ _
+    · rcases h3 with rfl | ⟨b, rfl⟩
+      · exact .inl ⟨by rw [e2]; rfl, by rw [e1]; rfl⟩
+      · refine .inr ?_
+        rw [e1, ha.2, e2, h2]
+        exact hlen
+
+/-- the auto-commit / flush tail of a key or a `select` call -/
+theorem tail_within {B K : Nat} {sh0 sh sh2 : Shared D L} {st : St} (hc : Cfg B K sh0) (hk : Keep sh0 sh)
+    (hcase : (st = .entering ∧ sh.last = .absorb) ∨ sh.com.len ≤ lenCap B st) (hac : ACBound env sh)
+    (h : (if st == .entering && sh.last == .absorb then Shared.tryAutoCommit env sh else .ok sh) = .ok sh2) :
+    Cfg B K sh2 ∧ sh2.com.len ≤ lenCap B st := by
+  have hc1 : Cfg B K sh := hc.keep hk
+  split at h
+  · next hcond =>
+    obtain ⟨hk2, _⟩ := (tryAutoCommit_keep env sh).elim h
+    refine ⟨hc1.keep hk2, ?_⟩
+    have := hac sh2 h
+    exact Nat.le_trans this (Nat.le_trans hc1.thr (le_lenCap B st))
+  · next hcond =>
+    cases h
+    refine ⟨hc1, ?_⟩
+    rcases hcase with ⟨h1, h2⟩ | h1
+    · exact absurd (by rw [h1, h2]; rfl) hcond
+    · exact h1
+
+/-- **keys, in every state** -/
+theorem within_key {B K : Nat} (hn : NoFuzzy env) {e e' : Editor D L} (hw : Within B K e) {ev : KeyEvent} {b : KB}
+    (hac : ∀ sh, Mid env e (.key ev) sh → ACBound env sh) (h : e.processKey env ev = .ok (e', b)) :
+    Within B K e' := by
+  obtain ⟨sh, st, hd, h2⟩ := processKey_split env h
+  obtain ⟨hk, _, hcase⟩ := dispatch_growth env hn hw hd
+  obtain ⟨hst, _, sh2, h3, h4⟩ := tail_spec env h2
+  obtain ⟨c1, c2⟩ := tail_within env hw.cfg hk hcase (hac sh ⟨st, hd⟩) h3
+  have e1 : Keep sh2 e'.shared ∧ e'.shared.com = sh2.com := by
+    rw [h4]; split <;> exact ⟨⟨rfl, rfl, rfl, rfl⟩, rfl⟩
+  exact ⟨c1.keep e1.1, by rw [e1.2, hst]; exact c2⟩
+
 end Chewing.Bound
